@@ -30,9 +30,10 @@ Definition head_is (t : Z) (l : list Z) : bool := match l with x :: _ => x =? t 
 
 (* DECIDABLE SIDE CONDITION, per block: the block can be flattened (Core's flatten is defined: outside finding F10) and in
    the listing of the flattened block the first measurement of qubit a is the heralded one.  Flattening re-inserts the
-   listed operations one by one; Core proves that this keeps the multiset of operations (C11), the order of the listing is
-   only known to be kept for each constructed circuit (library clause of C11, by running).  All other measurements of an
-   ancilla carry one and the same tag, so the position of the heralded one is all that is needed. *)
+   listed operations one by one; Core proves that this keeps the multiset of operations (C11).  All other measurements of
+   an ancilla carry one and the same tag, so the position of the heralded one is all that is needed.
+   MultiRoundOrder.v proves the second half for every description whose gates act on its qubits and every round count, so
+   that the condition is equivalent to "flatten is defined on the block" (defined_heralded_first). *)
 Definition block_heralded_first (D : rdesc) (init anc : list bool) (r a : Z) : bool :=
   match block_flat model_env D init anc r with
   | Some f => head_is T_HERALDED (graph_tags model_env a f)
@@ -60,17 +61,24 @@ Definition multi_small (D : rdesc) (init anc : list bool) (rounds : list Z) : Pr
 (* C13's closed form in the harness' tag numbers *)
 Definition cal_tags : list Z := map z_of_tag (map fst calibration_labelled).
 
-(* the labelled sequence read off the NESTING of the constructed circuit: node 2j of the top level is the sub-circuit of the
-   j-th entry of `rounds` (node 2j+1 the Barrier behind it), the last node is the calibration sub-circuit, whose three
-   nodes are the sub-circuits of the calibrated states *)
+(* the labelled sequence read off the NESTING of the constructed circuit, everything in LISTING order: node 2j of the top
+   level is the sub-circuit of the j-th entry of `rounds` (node 2j+1 the Barrier behind it), the last node is the
+   calibration sub-circuit, whose three nodes are the sub-circuits of the calibrated states 0, 1, 2 *)
 Definition op_tags (q : Z) (o : op) : list Z := tags_of q (C02.Proofs.op_leaves o).
+Definition listed_ops (ns : list node) : list op := map (fun i => n_op (nth i ns (Node None LNone (OComp 0 [])))) (bfs (parents ns)).
 Definition state_of (i : nat) : StateKey := nth i StateKey_all StateKey_STATE_0.
-Fixpoint labelled_from (q : Z) (rounds : list Z) (ns : list node) : list (Z * label) :=
-  match rounds, ns with
-  | r :: t, b :: _ :: ns' => map (fun x => (x, Block r)) (op_tags q (n_op b)) ++ labelled_from q t ns'
-  | [], [Node _ _ (OComp _ cs)] =>
-      flat_map (fun ic => map (fun x => (x, Cal (state_of (fst ic)))) (op_tags q (n_op (snd ic)))) (combine (seq 0 (length cs)) cs)
+Fixpoint labelled_ops (q : Z) (rounds : list Z) (os : list op) : list (Z * label) :=
+  match rounds, os with
+  | r :: t, o :: _ :: os' => map (fun x => (x, Block r)) (op_tags q o) ++ labelled_ops q t os'
+  | [], [OComp _ cs] =>
+      flat_map (fun io => map (fun x => (x, Cal (state_of (fst io)))) (op_tags q (snd io)))
+               (combine (seq 0 (length cs)) (listed_ops cs))
   | _, _ => []
   end.
 Definition circuit_labelled (env : denv) (D : rdesc) (init anc : list bool) (rounds : list Z) (q : Z) : option (list (Z * label)) :=
-  option_map (labelled_from q rounds) (multi_round_nodes env D init anc rounds).
+  option_map (fun ns => labelled_ops q rounds (listed_ops ns)) (multi_round_nodes env D init anc rounds).
+
+(* C13's vocabulary over the harness' tag numbers *)
+Definition z_labelled (l : list (tag * label)) : list (Z * label) := map (fun x => (z_of_tag (fst x), snd x)) l.
+Definition has_tag (t : Z) (x : Z) : bool := x =? t.
+Definition is_zl (t : Z) (l : label) (x : Z * label) : bool := (fst x =? t) && label_eqb (snd x) l.
